@@ -19,12 +19,12 @@ MUTS = [
     ("C03", "model.py", "    @_invalidate_cache\n    def update_derived(", "    def update_derived(", "update_derived without cache invalidation", False),
     ("C03", "model.py", "    @_invalidate_cache\n    def remove_reaction(", "    def remove_reaction(", "remove_reaction without cache invalidation", False),
     ("C04", "simulator.py", "        if t_end <= prior_t_end:\n            msg = \"End time point has to be larger than previous end time point\"\n            raise ValueError(msg)\n\n        if self._time_shift is not None:\n            t_end -= self._time_shift", "        if t_end < prior_t_end:\n            msg = \"End time point has to be larger than previous end time point\"\n            raise ValueError(msg)\n\n        if self._time_shift is not None:\n            t_end -= self._time_shift", "< instead of <= in simulate", False),
-    ("C10", "simulation.py", "            if v > 0\n        ]", "            if v >= 0\n        ]", "producers with >= (equivalent unless a coefficient is exactly 0)", True),
+    ("C10", "simulation.py", "            if v > 0\n        ]", "            if v >= 0\n        ]", "producers with >= (differs only for a coefficient that is exactly 0)", False),
     ("C13", "model.py", "                if all(i in all_parameter_names for i in derived.args):\n                    static_order.append(name)\n                    all_parameter_names.add(name)", "                if all(i in parameter_names for i in derived.args):\n                    static_order.append(name)\n                    all_parameter_names.add(name)", "classify derived parameters by direct dependence only", False),
     ("C14", "simulator.py", "            self.model.update_parameters(pars.to_dict())\n            self.simulate(t_start + t_end.total_seconds(), steps=time_points_per_step)", "            self.simulate(t_start + t_end.total_seconds(), steps=time_points_per_step)\n            self.model.update_parameters(pars.to_dict())", "protocol applies parameters after simulating the step", False),
     ("C15", "integrators/int_scipy.py", "            if np.linalg.norm(diff, ord=2) < tolerance:", "            if np.linalg.norm(diff, ord=2) < max(tolerance, 1e-2):", "steady-state tolerance floor 1e-2", False),
     ("C16", "linear_label_map.py", "fn=_one_div, args=[product.split(\"__\")[0]]", "fn=_one_div, args=[substrate.split(\"__\")[0] if substrate != \"EXT\" else product.split(\"__\")[0]]", "product gain divided by the substrate pool", False),
-    ("C18", "mca.py", "        # Reset\n        model.update_parameters({par: old})\n\n        elasticity_coef", "        elasticity_coef", "parameter_elasticities forgets the reset", False),
+    ("C18", "mca.py", "        # Reset\n        model.update_parameters({par: old})\n        elasticity_coef", "        elasticity_coef", "parameter_elasticities forgets the reset", False),
     ("C19", "parallel.py", "    tmp.replace(file)", "    tmp.replace(file) if file.suffix == \".p\" else None\n    file.touch()", "touch final file after the rename (equivalent: no intermediate state)", True),
     ("C20", "fit/routines.py", "    for p in settings.p_names:\n        model.update_parameter(p, updates[p])\n    for p in settings.v_names:\n        model.update_variable(p, updates[p])\n\n    res = (\n        Simulator(\n            model,\n            integrator=settings.integrator,\n        )\n        .simulate_time_course(", "    for p in settings.p_names[:1]:\n        model.update_parameter(p, updates[p])\n    for p in settings.v_names:\n        model.update_variable(p, updates[p])\n\n    res = (\n        Simulator(\n            model,\n            integrator=settings.integrator,\n        )\n        .simulate_time_course(", "time-course residual applies only the first fitted parameter", False),
 ]
